@@ -13,6 +13,7 @@ The static inventory (harness/translate/hiddenstate.py -> RTV/Gen/HiddenState.le
   (ii) SEARCHES for a concrete failing history when a site is new (static: not on the allow-list; run-time: changed and
        not allowed).  The recognise functions that reach the site are derived from its module; targeted histories (same
        call twice / same text under two cultures of different conventions / same text under two references of one year /
+       the same text at another offset of the query /
        main thread then worker thread / thread A paused at the k-th traced line of the site's file while thread B
        completes a call / fallback-enabled then fallback-disabled request) over boundary inputs (ambiguous separators
        '1,234' '1.234', numeric dates a/b/y with a, b <= 12, month-day texts on both sides of the stated day, negative
@@ -368,6 +369,11 @@ def build_histories(fam, phase, pool, site_files):
                     a, b = call('recognize_datetime', t, c, r1), call('recognize_datetime', t, c, r2)
                     hs.append({'kind': 'same-text-two-references', 'calls': [a, b]})
                     hs.append({'kind': 'same-text-two-references', 'calls': [b, a]})
+        # H7 the same text at another offset of the query (a memo keyed by the extracted text forgets the position)
+        for c in (sens + [x for x in calls if x not in sens])[:40]:
+            shifted = call(c[0], 'so ' + c[1], c[2], c[4], c[3], c[5])
+            hs.append({'kind': 'same-text-shifted', 'calls': [c, shifted]})
+            hs.append({'kind': 'same-text-shifted', 'calls': [shifted, c]})
         # H6 fallback-enabled request for a culture without a model, then the same with the fallback disabled
         for c in calls[:1] + sens[:2]:
             for cu in ('sv-se', 'xx-yy'):
@@ -577,7 +583,7 @@ def run_search(ctx, sites, pool, why):
     found = False
     log = []
     t0 = time.time()
-    order = ['same-call-twice', 'same-text-two-cultures', 'same-text-two-references', 'fallback-then-no-fallback',
+    order = ['same-call-twice', 'same-text-two-cultures', 'same-text-two-references', 'same-text-shifted', 'fallback-then-no-fallback',
              'worker-thread-alone', 'main-then-worker-thread', 'paused-interleaving']
     for fam, phase in [(f, ph) for f in fams for ph in ('sequential', 'threads')]:
         hs = build_histories(fam, phase, pool, files)
